@@ -402,7 +402,10 @@ func (w *c07RaceWorker) opZoo(h *gorm.DB) string {
 	nRead := 16
 	k := w.rng.Intn(nRead + 14)
 	if w.ro {
-		k = w.rng.Intn(nRead)
+		k = w.rng.Intn(nRead + 3)
+		if k >= nRead { // read-only program: the table never changes, so finishers called DIRECTLY on the shared handle are deterministic
+			k = 30
+		}
 	}
 	if w.first { // the very first operation of every goroutine loads rows: all pools are empty, every holder comes from New
 		k, w.first = []int{0, 1, 3, 5, 6}[w.g%5], false
@@ -733,6 +736,53 @@ func (w *c07RaceWorker) opZoo(h *gorm.DB) string {
 		var n int64
 		err4 := h.Table(tbl).Count(&n).Error
 		return fmt.Sprintf("zautomig %s %s %s %s %d has=%v", c07ErrClass(err), c07ErrClass(err2), c07ErrClass(err3), c07ErrClass(err4), n, h.Migrator().HasTable(tbl))
+	case 30:
+		// finishers called directly on the shared handle (no chain method in between: the receiver IS the shared *gorm.DB)
+		w.kinds["z-direct-finishers"] = true
+		var zs []C07Zoo
+		err := h.Find(&zs).Error
+		sum := 0
+		for i := range zs {
+			if zs[i].ID >= lo && zs[i].ID <= hi {
+				sum += len(c07ShowZoo(&zs[i]))
+			}
+		}
+		var a, b, c C07Zoo
+		err2 := h.First(&a).Error
+		err3 := h.Last(&b).Error
+		err4 := h.Take(&c).Error
+		s := fmt.Sprintf("zdirect find %s %d/%d first %s %d last %s %d take %s %d", c07ErrClass(err), len(zs), sum, c07ErrClass(err2), a.ID, c07ErrClass(err3), b.ID, c07ErrClass(err4), c.ID)
+		var batch []C07Zoo
+		nb := 0
+		tx := h.FindInBatches(&batch, 7, func(tx *gorm.DB, n int) error { nb += len(batch); return nil })
+		s += fmt.Sprintf(" batches %s %d", c07ErrClass(tx.Error), nb)
+		if w.hmodel { // the shared handle carries Model(&C07Zoo{}): Count / Pluck / Scan / Rows / Row need nothing else
+			var n int64
+			var owners []string
+			var ls []C07ZooLite
+			e1 := h.Count(&n).Error
+			e2 := h.Pluck("owner", &owners).Error
+			e3 := h.Scan(&ls).Error
+			rows, e4 := h.Rows()
+			nr := 0
+			if e4 == nil {
+				for rows.Next() {
+					nr++
+				}
+				rows.Close()
+			}
+			var first string
+			e5 := h.Select("owner").Row().Scan(&first)
+			sort.Strings(owners)
+			own := 0
+			for i := range ls {
+				if ls[i].ID >= lo && ls[i].ID <= hi {
+					own += len(c07ShowLite(&ls[i]))
+				}
+			}
+			s += fmt.Sprintf(" count %s %d pluck %s %d scan %s %d/%d rows %s %d row %s %s", c07ErrClass(e1), n, c07ErrClass(e2), len(owners), c07ErrClass(e3), len(ls), own, c07ErrClass(e4), nr, c07ErrClass(e5), first)
+		}
+		return s
 	default:
 		w.kinds["z-connection"] = true
 		var n int64
